@@ -515,8 +515,9 @@ func (i *interpreter) formatValue(fr *frame, verb byte, plus, sharp bool, t type
 			case 'x':
 				cs := concStrI(i, v)
 				return bytesOf(fmt.Sprintf("%x", cs))
-			case 'd':
-				return append(bytesOf("%!d(string="), append(strBytes(v), uint8(')'))...)
+			case 'd', 't', 'f', 'g', 'e', 'c', 'b', 'o', 'U':
+				// wrong verb for a string: fmt prints %!verb(string=value)
+				return append(bytesOf("%!"+string(rune(verb))+"(string="), append(strBytes(v), uint8(')'))...)
 			}
 		case u.Info()&types.IsBoolean != 0:
 			b := i.concretize(v).(bool)
